@@ -42,4 +42,24 @@ theorem chunkCfg_eq (c : Immunity.Config) :
     simp only [Immunity.Config.chunkCfg, Gen.chunkMaxNumItems, Gen.chunkMaxNumBytes, Gen.chunkNumItemsToEvict, Int.natCast_ediv, hmax]
 
 
+/-! ### the byte counter of an immunity chunk (`numBytes`) -/
+
+theorem chunkBytes_leaves :
+    Gen.chunkBytesAfterAdd_leaves = ["chunk.numBytes : Int", "item.size : Int"] ∧
+    Gen.chunkBytesAfterRemove_leaves = ["chunk.numBytes : Int", "item.size : Int"] := ⟨rfl, rfl⟩
+
+/-- `trackNumBytesOnRemoveNoLock`, folded over the items an eviction removes, is the model's `subBytes` (clamped at 0 after
+    EACH item, as in the source) -/
+theorem subBytes_eq_source (b : Int) (removed : List Immunity.Item) :
+    Immunity.subBytes b removed =
+      removed.foldl (fun b it => Gen.chunkBytesAfterRemove (chunk_numBytes := b) (item_size := it.size)) b := rfl
+
+/-- `RemoveItem` of a resident item: the model's counter is the source's -/
+theorem chunkBytes_removeItem (c : Immunity.Chunk) (k : Bytes) (it : Immunity.Item) (h : c.get k = some it) :
+    (c.removeItem k).1.numBytes = Gen.chunkBytesAfterRemove (chunk_numBytes := c.numBytes) (item_size := it.size) := by
+  simp only [Immunity.Chunk.removeItem, h, Gen.chunkBytesAfterRemove]
+
+/-- `trackNumBytesOnAddNoLock`: an insertion adds the declared size (the expression the model's `addItem` uses) -/
+theorem chunkBytes_add (b size : Int) : b + size = Gen.chunkBytesAfterAdd (chunk_numBytes := b) (item_size := size) := rfl
+
 end SV.GenProofs
